@@ -243,3 +243,176 @@ func actualField(pkg, typ, canonical string) string {
 	}
 	return canonical
 }
+
+// ---- function roles ----------------------------------------------------------------------------------------
+//
+// Unexported functions the rules address by name are resolved by role when the name is gone (renamed): "the
+// in-package function the exported X calls", "the callee whose result feeds time.NewTimer in the retry closure",
+// … The function found is registered under its canonical name and its call events carry the canonical name.
+
+var funcCanon = map[*ssa.Function]string{}
+
+type funcRole struct {
+	canonical string // full canonical FuncName
+	find      func(p *Program) *ssa.Function
+}
+
+// inPkgCallees lists static callees of fn (and its closures) that live in fn's package, in order.
+func inPkgCallees(p *Program, fn *ssa.Function, withClosures bool) []*ssa.Function {
+	var out []*ssa.Function
+	var visit func(f *ssa.Function)
+	visit = func(f *ssa.Function) {
+		for _, b := range f.Blocks {
+			for _, in := range b.Instrs {
+				cc, ok := in.(ssa.CallInstruction)
+				if !ok {
+					continue
+				}
+				if cal := calleeOf(cc.Common()); cal != nil && p.InScope[cal] && cal.Pkg == fn.Pkg && cal.Parent() == nil {
+					out = append(out, cal)
+				}
+			}
+		}
+		if withClosures {
+			for _, a := range f.AnonFuncs {
+				visit(a)
+			}
+		}
+	}
+	visit(fn)
+	return out
+}
+
+func firstUnexportedCallee(p *Program, from string, withClosures bool, pred func(*ssa.Function) bool) *ssa.Function {
+	fn := p.byName[from]
+	if fn == nil {
+		return nil
+	}
+	for _, cal := range inPkgCallees(p, fn, withClosures) {
+		if cal.Object() != nil && cal.Object().Exported() {
+			continue
+		}
+		if pred == nil || pred(cal) {
+			return cal
+		}
+	}
+	return nil
+}
+
+func recvNamed(f *ssa.Function) string {
+	if f.Signature.Recv() == nil {
+		return ""
+	}
+	if n := namedOfPtr(f.Signature.Recv().Type()); n != nil {
+		return n.Obj().Name()
+	}
+	return ""
+}
+
+func funcRoles() []funcRole {
+	viaExported := func(canonical, exported string, recv string) funcRole {
+		return funcRole{canonical, func(p *Program) *ssa.Function {
+			return firstUnexportedCallee(p, exported, false, func(f *ssa.Function) bool { return recv == "" || recvNamed(f) == recv })
+		}}
+	}
+	return []funcRole{
+		viaExported("failsafe.(*executor).executeSync", "failsafe.(*executor).Get", "executor"),
+		viaExported("failsafe.(*executor).executeAsync", "failsafe.(*executor).GetAsync", "executor"),
+		viaExported("failsafe.(*executor).execute", "failsafe.(*executor).executeSync", "executor"),
+		{"failsafe.newExecution", func(p *Program) *ssa.Function {
+			return firstUnexportedCallee(p, "failsafe.(*executor).executeSync", false, func(f *ssa.Function) bool { return f.Signature.Recv() == nil })
+		}},
+		viaExported("failsafe.(*execution).copy", "failsafe.(*execution).CopyWithResult", "execution"),
+		{"failsafe.(*executionResult).record", func(p *Program) *ssa.Function {
+			return firstUnexportedCallee(p, "failsafe.(*executor).executeAsync", true, func(f *ssa.Function) bool { return recvNamed(f) == "executionResult" })
+		}},
+		{"failsafe.(*execution).record", func(p *Program) *ssa.Function {
+			return firstUnexportedCallee(p, "failsafe.(*executor).execute", true, func(f *ssa.Function) bool {
+				return recvNamed(f) == "execution" && f.Signature.Params().Len() == 0 && f.Signature.Results().Len() == 0
+			})
+		}},
+		{"failsafe.newExecutionDoneEvent", func(p *Program) *ssa.Function {
+			return firstUnexportedCallee(p, "failsafe.(*executor).execute", true, func(f *ssa.Function) bool { return f.Signature.Recv() == nil && f.Signature.Params().Len() == 2 })
+		}},
+		{"retrypolicy.(*executor).getDelay", func(p *Program) *ssa.Function {
+			ap := p.byName["retrypolicy.(*executor).Apply"]
+			if ap == nil {
+				return nil
+			}
+			for _, a := range ap.AnonFuncs {
+				for _, b := range a.Blocks {
+					for _, in := range b.Instrs {
+						if c, ok := in.(*ssa.Call); ok {
+							if cal := calleeOf(&c.Call); cal != nil && qualName(cal) == "time.NewTimer" && len(c.Call.Args) == 1 {
+								if src, ok := c.Call.Args[0].(*ssa.Call); ok {
+									if g := calleeOf(&src.Call); g != nil && p.InScope[g] {
+										return g
+									}
+								}
+							}
+						}
+					}
+				}
+			}
+			return nil
+		}},
+		viaExported("ratelimiter.(*rateLimiter).acquirePermitsWithMaxWait", "ratelimiter.(*rateLimiter).AcquirePermitWithMaxWait", "rateLimiter"),
+		{"ratelimiter.exceedsMaxWaitTime", func(p *Program) *ssa.Function {
+			return firstUnexportedCallee(p, "ratelimiter.(*smoothStats).acquirePermits", false, func(f *ssa.Function) bool { return f.Signature.Recv() == nil && f.Signature.Results().Len() == 1 })
+		}},
+		viaExported("circuitbreaker.(*circuitBreaker).recordSuccess", "circuitbreaker.(*circuitBreaker).RecordSuccess", "circuitBreaker"),
+		viaExported("circuitbreaker.(*circuitBreaker).recordFailure", "circuitbreaker.(*circuitBreaker).RecordFailure", "circuitBreaker"),
+		viaExported("circuitbreaker.(*circuitBreaker).recordResult", "circuitbreaker.(*circuitBreaker).RecordResult", "circuitBreaker"),
+		viaExported("circuitbreaker.(*circuitBreaker).tryAcquirePermit", "circuitbreaker.(*circuitBreaker).TryAcquirePermit", "circuitBreaker"),
+		viaExported("circuitbreaker.(*circuitBreaker).open", "circuitbreaker.(*circuitBreaker).Open", "circuitBreaker"),
+		viaExported("circuitbreaker.(*circuitBreaker).close", "circuitbreaker.(*circuitBreaker).Close", "circuitBreaker"),
+		viaExported("circuitbreaker.(*circuitBreaker).halfOpen", "circuitbreaker.(*circuitBreaker).HalfOpen", "circuitBreaker"),
+		viaExported("circuitbreaker.(*circuitBreaker).transitionTo", "circuitbreaker.(*circuitBreaker).open", "circuitBreaker"),
+		{"circuitbreaker.newClosedState", func(p *Program) *ssa.Function {
+			return firstUnexportedCallee(p, "circuitbreaker.(*config).Build", false, func(f *ssa.Function) bool { return f.Signature.Recv() == nil })
+		}},
+		viaExported("failsafehttp.doRequest", "failsafehttp.(*roundTripper).RoundTrip", ""),
+		{"failsafehttp.bodyReader", func(p *Program) *ssa.Function {
+			return firstUnexportedCallee(p, "failsafehttp.doRequest", false, func(f *ssa.Function) bool { return f.Signature.Recv() == nil })
+		}},
+		{"util.errorAs", func(p *Program) *ssa.Function {
+			return firstUnexportedCallee(p, "util.ErrorTypesMatch", false, func(f *ssa.Function) bool { return f.Signature.Results().Len() == 1 && f.Signature.Params().Len() == 2 })
+		}},
+	}
+}
+
+func shortName(full string) string {
+	if i := strings.LastIndex(full, "."); i >= 0 {
+		return full[i+1:]
+	}
+	return full
+}
+
+var funcsRenamed int
+
+func resolveFuncRoles(p *Program) {
+	funcCanon = map[*ssa.Function]string{}
+	funcsRenamed = 0
+	for _, r := range funcRoles() {
+		if p.byName[r.canonical] != nil {
+			continue
+		}
+		if fn := r.find(p); fn != nil {
+			p.byName[r.canonical] = fn
+			funcCanon[fn] = shortName(r.canonical)
+			funcsRenamed++
+		}
+	}
+}
+
+// canonName: the name rules know a function by.
+func canonName(fn *ssa.Function) string {
+	if fn == nil {
+		return ""
+	}
+	fn = origin(fn)
+	if c, ok := funcCanon[fn]; ok {
+		return c
+	}
+	return fn.Name()
+}
